@@ -7,6 +7,7 @@ such as reshape, transpose, and resize.
 import numpy as np
 
 from sigpy import backend, block, conv, fourier, interp, util, wavelet
+from sigpy import _verif  # noqa: I001
 
 
 def _check_shape_positive(shape):
@@ -99,13 +100,19 @@ class Linop:
             array: output array of shape `oshape`.
 
         """
+        if _verif.ON:
+            _tok = _verif.call_begin("linop", self, input)
         try:
             self._check_ishape(input)
             output = self._apply(input)
             self._check_oshape(output)
         except Exception as e:
+            if _verif.ON:
+                _verif.call_abort("linop")
             raise RuntimeError("Exceptions from {}.".format(self)) from e
 
+        if _verif.ON:
+            _verif.call_end("linop", self, _tok, input, output)
         return output
 
     def _adjoint_linop(self):
